@@ -396,7 +396,8 @@ class FromArgs(Generic[T]):
 
     def __setitem__(self, i: int, arg: T) -> None:
         if i in self._i_to_arg:
-            assert self._i_to_arg[i] == arg
+            # Compare through the key function, so that two nan constants are the same
+            assert self._hash_fn(self._i_to_arg[i]) == self._hash_fn(arg)
         self._i_to_arg[i] = arg
         self._arg_to_i[self._hash_fn(arg)] = i
 
